@@ -140,10 +140,10 @@ def check_srbfd(stack, A, sizes, batch_size, cbuf, ebuf, seed0, tape):
     return True
   fd = stack['im'].InMemoryFederatedData({i: {'x': d.raw_examples['x']} for i, d in enumerate(dss)})
   seed = 0 if seed0 else 3
+  if A is M:
+    np_lite.set_tape(tape)      # once: the counter of unseeded generators must keep running between the two passes
 
   def run():
-    if A is M:
-      np_lite.set_tape(tape)
     it = stack['fd'].shuffle_repeat_batch_federated_data(fd, batch_size=batch_size, client_buffer_size=cbuf, example_buffer_size=ebuf, seed=seed)
     return [A.rows(b['x']) for b in itertools.islice(it, 3)]
   a = run()
@@ -259,10 +259,10 @@ def repeatable(kind: int, n: int, drive: int) -> bool:
 
 def srbfd(sizes: List[int], batch_size: int, cbuf: int, ebuf: int, seed0: bool) -> bool:
   """
-  pre: 1 <= len(sizes) <= 2
+  pre: 1 <= len(sizes) <= 3
   pre: all(1 <= s <= 2 for s in sizes)
   pre: 1 <= batch_size <= 2
-  pre: 1 <= cbuf <= 2
+  pre: 1 <= cbuf <= 3
   pre: 1 <= ebuf <= 2
   post: __return__
   """
